@@ -128,6 +128,19 @@ def translate_all():
     return report
 
 
+def digest_changes():
+    """Names of the lexer / parser / emitter functions whose text differs from the pinned one (Syn/Pins_SrcDigest.v)."""
+    gen = GEN / "SrcDigestGen.v"
+    pins = TH / "Syn" / "Pins_SrcDigest.v"
+    if not gen.exists() or not pins.exists():
+        return ["<digest files missing>"]
+    cur = dict(re.findall(r"Definition (dg_\w+) : list N := (.*?)\.\n", gen.read_text()))
+    pin = dict(re.findall(r"Definition pinned_(dg_\w+) : list N := (.*?)\.\n", pins.read_text()))
+    out = [n for n in pin if cur.get(n) != pin[n]]
+    out += [n + " (new)" for n in cur if n not in pin]
+    return out
+
+
 def coq_files():
     return sorted(str(p.relative_to(COQ)) for p in TH.rglob("*.v"))
 
@@ -278,6 +291,7 @@ def prepare(ctx, coq_targets, drivers, allowed_axioms=()):
             ctx.obligation_failure("grep-gate", g)
         treport = translate_all()
         ctx.extra["translators"] = {k: (v["ok"] if v["ok"] else v["error"]) for k, v in treport.items()}
+        ctx.extra["source_digest_changes"] = digest_changes()
         # force re-extraction if extracted files are missing
         for d in drivers:
             if not (OGEN / f"{d}.ml").exists():
@@ -297,6 +311,9 @@ def prepare(ctx, coq_targets, drivers, allowed_axioms=()):
             if not errs:
                 errs = [("make", log[-800:])]
             for where, msg in errs:
+                if "Pins_SrcDigest" in where:
+                    msg = ("source text differs from the text the hand-written model was validated against, in: "
+                           + ", ".join(digest_changes())[:500] + " | " + msg)
                 ctx.obligation_failure(where, msg)
         if prop_vo.exists() and ok:
             res, raw = print_assumptions(prop, thms)
